@@ -718,7 +718,7 @@ static void history_part() {
         // the 17-thread runs (rmerge in rebuild, parallel paths of the smoothers) are ~100x slower under the fiber shim: subset
         bool main_coars = (ci == 0 || ci == 3 || ci == 6 || ci == 7);
         if (nt == 17 && vf::quick()    && !((ri == 0 && ai < 3) || (ri <= 2 && main_coars && ai == 0))) continue;
-        if (nt == 17 && vf::thorough() && !((ri == 0 && ai < 4) || (main_coars && ai <= 1))) continue;
+        if (nt == 17 && vf::thorough() && !((ri == 0 && ai < 4) || (main_coars && ai == 0))) continue;
         auto keyf = [&]{ return std::string(vf::KS() << "bfs|" << md.id << "|" << cs[ci].name << "|" << relax_names[ri] << "|" << av[ai].name << "|t" << nt); };
         if (!vf::take(keyf)) continue;
         if (!usable(md, cs[ci])) { vf::count("rs_skipped_row_without_negative_offdiag"); continue; }
